@@ -280,6 +280,7 @@ func (s *Server) nextDocVersion(docURI protocol.DocumentURI) uint64 {
 		s.docVersions = make(map[protocol.DocumentURI]uint64)
 	}
 	s.docVersions[docURI] = s.docSeq
+	s.dropDocCaches(docURI)
 	return s.docSeq
 }
 
@@ -287,6 +288,29 @@ func (s *Server) dropDocVersion(docURI protocol.DocumentURI) {
 	s.docVerMu.Lock()
 	defer s.docVerMu.Unlock()
 	delete(s.docVersions, docURI)
+	s.dropDocCaches(docURI)
+}
+
+// dropDocCaches forgets what was derived from the previous content of docURI (its
+// resolved include tree and the payee templates built from it). Called with docVerMu
+// held, so that no diagnostics task can put a tree of older content back afterwards.
+func (s *Server) dropDocCaches(docURI protocol.DocumentURI) {
+	s.resolved.Delete(docURI)
+	s.payeeTemplatesCache.Delete(docURI)
+}
+
+// storeResolvedIfCurrent caches the include tree resolved from the given version of
+// docURI unless the document has changed (or was closed) in the meantime.
+// Version 0 means "unversioned" and is always stored.
+func (s *Server) storeResolvedIfCurrent(docURI protocol.DocumentURI, version uint64, resolved *include.ResolvedJournal) {
+	s.docVerMu.Lock()
+	defer s.docVerMu.Unlock()
+	if version != 0 {
+		if current, ok := s.docVersions[docURI]; !ok || current != version {
+			return
+		}
+	}
+	s.resolved.Store(docURI, resolved)
 }
 
 func (s *Server) isCurrentDocVersion(docURI protocol.DocumentURI, version uint64) bool {
@@ -335,7 +359,7 @@ func (s *Server) publishDiagnosticsVersion(ctx context.Context, docURI protocol.
 		return
 	}
 	resolved, loadErrors := s.loader.LoadFromContent(path, content)
-	s.resolved.Store(docURI, resolved)
+	s.storeResolvedIfCurrent(docURI, version, resolved)
 
 	diagnostics := s.analyze(content)
 
